@@ -547,6 +547,10 @@ func (g *Genome) duplicateControlGenes(traits []*neat.Trait, nodeIdMap map[int]*
 					l.InNode.Id, controlNode.Id)
 			}
 			newInLink := network.NewLinkCopy(l, inNode, nodeCopy)
+			if l.Trait != nil {
+				// the copy refers to its own trait, not to the trait object of this genome
+				newInLink.Trait = TraitWithId(l.Trait.Id, traits)
+			}
 			nodeCopy.Incoming = append(nodeCopy.Incoming, newInLink)
 		}
 
@@ -558,6 +562,9 @@ func (g *Genome) duplicateControlGenes(traits []*neat.Trait, nodeIdMap map[int]*
 					l.InNode.Id, controlNode.Id)
 			}
 			newOutLink := network.NewLinkCopy(l, nodeCopy, outNode)
+			if l.Trait != nil {
+				newOutLink.Trait = TraitWithId(l.Trait.Id, traits)
+			}
 			nodeCopy.Outgoing = append(nodeCopy.Outgoing, newOutLink)
 		}
 
